@@ -82,9 +82,7 @@ def gen_formulas(n, rng):
             return sympy.ceiling(x / y)
         if k < 0.88:
             return sympy.Max(x, y)
-        if k < 0.94:
-            return sympy.Min(x, y)
-        return sympy.Heaviside(x - y) * y
+        return sympy.Min(x, y)
     out, seen = [], set()
     # hand-picked shapes the model is known to emit
     fixed = [a * sympy.ceiling(12 / a), a * sympy.ceiling(12 / a) - 12, sympy.ceiling(a / b) - a / b, 12 / a + a, sympy.Max(12 / a, a * b),
@@ -155,6 +153,11 @@ def decide(expr, verdict, bounds, st, label):
         v = tr.var(sym)
         s.add(v >= lo, v <= hi)
     s.add(tr.constraints())
+    # Heaviside terms come from differentiating Min/Max; at a tie (argument == 0) the derivative
+    # does not exist, so tie points are not judged
+    for h in expr.atoms(sympy.Heaviside):
+        s.add(tr(h.args[0]) != 0)
+    s.add(tr.constraints())
     s.add(FORBIDDEN[verdict](t))
     r = z3_check(s, st, 20000)
     pt = None
@@ -170,7 +173,17 @@ def evaluate(expr, point):
     return sympy.Rational(e) if e.is_Rational else e
 
 
+class _Timeout(Exception):
+    pass
+
+
+def _alarm(signum, frame):
+    raise _Timeout()
+
+
 def process(label, f, bounds, st, out_viol, out_known, out_exc):
+    import signal
+    signal.signal(signal.SIGALRM, _alarm)
     m = mts()
     CR = m.ComparisonResult
     syms = [b[0] for b in bounds]
@@ -178,12 +191,19 @@ def process(label, f, bounds, st, out_viol, out_known, out_exc):
     for kind, s, flag in jobs:
         clear_caches()
         try:
-            if kind == "formula":
-                verdict = m.geq_leq_zero(f, bounds)
-                judged = f
-            else:
-                verdict = m.diff_geq_leq_zero(f, s, bounds)
-                judged = m.diff(sympy.expand(f), s)
+            signal.alarm(20)      # sympy's range analysis can run away on grammar formulas: skipped, counted
+            try:
+                if kind == "formula":
+                    verdict = m.geq_leq_zero(f, bounds)
+                    judged = f
+                else:
+                    verdict = m.diff_geq_leq_zero(f, s, bounds)
+                    judged = m.diff(sympy.expand(f), s)
+            finally:
+                signal.alarm(0)
+        except _Timeout:
+            st.extra["comparator_timeouts_20s"] = st.extra.get("comparator_timeouts_20s", 0) + 1
+            continue
         except (TypeError, ValueError, NotImplementedError, RecursionError) as e:
             st.extra["comparator_raised_documented"] = st.extra.get("comparator_raised_documented", 0) + 1
             continue
@@ -215,6 +235,37 @@ def process(label, f, bounds, st, out_viol, out_known, out_exc):
                 r2, _ = decide(drop_ceil(judged), verdict.name, bounds, st, label)
                 if r2 == "unsat":
                     rec["key"] = "ceiling-dropped"
+                    out_known.append(rec)
+                    continue
+            # third known class: the comparator trusts sympy's own evaluation of `g >= 0` / `g <= 0`;
+            # sympy 1.14 decides some relations over positive INTEGER symbols wrongly
+            # (e.g. 3/(b*c) >= 2 -> True).  If sympy gives a definite answer for the judged
+            # expression that the point contradicts, it is that class.
+            try:
+                g0 = drop_ceil(judged)
+                ge, le = (g0 >= 0), (g0 <= 0)
+                wrong = (ge is sympy.true and val < 0) or (le is sympy.true and val > 0) or (ge is sympy.false and val >= 0) or (le is sympy.false and val <= 0)
+            except TypeError:
+                wrong = False
+            if wrong:
+                rec["key"] = "sympy-relational"
+                out_known.append(rec)
+                continue
+            # second known class: the comparator evaluates a formula with several Heaviside terms
+            # (derivatives of Min/Max) only with ALL of them 1 and ALL of them 0.  If the verdict is
+            # right under those two substitutions this is that class.
+            hs = drop_ceil(judged).atoms(sympy.Heaviside)
+            if len(hs) >= 1:
+                ok = True
+                for val in (1, 0):
+                    g = drop_ceil(judged).xreplace({h: sympy.Integer(val) for h in hs})
+                    if g.free_symbols:
+                        r3, _ = decide(g, verdict.name, bounds, st, label)
+                    else:
+                        r3 = "unsat" if sign_ok(verdict.name, g) else "sat"
+                    ok &= (r3 == "unsat")
+                if ok:
+                    rec["key"] = "heaviside-partition"
                     out_known.append(rec)
                     continue
             out_viol.append(rec)
@@ -277,20 +328,21 @@ def run(args):
         excs.extend(r["exceptions"])
     stats.extra["comparator_unexpected_exceptions"] = excs[:10]
     stats.extra["known_class_hits"] = n_known
-    kf = [k for k in load_known_findings(PID) if k.get("key") == "ceiling-dropped"]
     known = []
-    if known_recs:
-        if kf:
-            ex = known_recs[0]
-            known.append(f"{kf[0]['what_fails']} [{n_known} hit(s) this run, e.g. {ex['what'][:160]}]")
-        else:
-            violations = known_recs + violations
+    for key in ("ceiling-dropped", "heaviside-partition", "sympy-relational"):
+        recs = [r for r in known_recs if r.get("key") == key]
+        kf = [k for k in load_known_findings(PID) if k.get("key") == key]
+        if recs:
+            if kf:
+                known.append(f"{kf[0]['what_fails']} [e.g. {recs[0]['what'][:160]}]")
+            else:
+                violations = recs + violations
     return finish(
         PID, args.tier, "model_checking", stats, t0, violations[:5], known,
         functions_encoded=["make_tile_shapes.geq_leq_zero", "diff_geq_leq_zero", "_compare_to_zero", "diff", "function_range",
                            "partition_heaviside", "_is_connected_cached (Min/Max cache)"],
-        bounds=dict(formulas=len(items), grammar="depth<=3 over symbols a,b,c and constants {1,2,3,4,6,12}: + - * / ceiling Max Min Heaviside",
-                    boxes=f"[1,hi] per symbol, hi in {his}", model_formulas="real run_model output columns for skeletons with symbolic tile shapes, bounds 12/8/6",
+        bounds=dict(formulas=len(items), grammar="depth<=3 over symbols a,b,c and constants {1,2,3,4,6,12}: + - * / ceiling Max Min (Heaviside arises from the derivatives)",
+                    boxes=f"[1,hi] per symbol, hi in {his}", ties="points where a Heaviside argument (a Min/Max tie of the differentiated formula) is 0 are excluded", model_formulas="real run_model output columns for skeletons with symbolic tile shapes, bounds 12/8/6",
                     outside="terms_do_not_cross_zero=True (its precondition is a global property of the objective), boxes > 24, > 3 symbols in the grammar"),
         assumptions=["derivative verdicts are judged on the expression the comparator itself derives (sympy.diff of the expanded formula), at integer points",
                      "an exception escaping the comparator is not a verdict: reported as comparator_unexpected_exceptions, not as a violation"],
